@@ -6,32 +6,67 @@ import treeutil as tu
 from common import time_limit
 
 ID = "C15"
-GEN_DEPENDS = []
+GEN_DEPENDS = ["C15Filters"]
 RULE = ("random rose trees (1-12 leaves quick, up to 40 thorough; unary nodes, polytomies, fixed families) x entry point "
-        "(29 kinds, incl. two live generators (pre/level-order) stepped next() by next() in a random interleaving: every *_iter / *_node_iter / *_edge_iter of Node and Tree, ancestor_iter, Tree.nodes/leaf_nodes/"
-        "internal_nodes/edges/leaf_edges/internal_edges, len, apply, iter()) x start node (Node methods on any node; Tree "
+        "(39 kinds, incl. two live generators (pre/level-order) stepped next() by next() in a random interleaving: every *_iter / *_node_iter / *_edge_iter of Node and Tree, ancestor_iter, Tree.nodes/leaf_nodes/"
+        "internal_nodes/edges/leaf_edges/internal_edges, len, apply, iter(); the one-step iterators and lists of Node: child_node_iter/"
+        "child_edge_iter/child_nodes/child_edges/incident_edges/adjacent_nodes/sibling_nodes/sister_nodes; the first-hit searches "
+        "Tree.find_node/find_nodes/find_node_with_label/find_node_with_taxon_label/find_node_for_taxon) x start node (Node methods on any node; Tree "
         "methods on the tree and on a Tree made of a spliced-out inner node) x filter (none, or a random set of accepted "
-        "ids answered with bools, with truthy/falsy non-bool values, or by a callable that is itself falsy) x node class "
-        "(Node, or subclasses whose instances and edges are falsy through __bool__ or __len__); thorough adds every shape "
+        "ids answered with bools, with truthy/falsy non-bool values, or by a callable that is itself falsy; apply callbacks that are falsy callables) x node class "
+        "(Node, or subclasses whose instances and edges are falsy through __bool__ or __len__) x STATE (about 40% of the cases: taxa on the "
+        "tips all distinct / some tips without a taxon / two tips sharing one taxon / taxa on inner nodes / none, two taxa sharing a label, node labels, "
+        "edge lengths, and a preparation run on the tree before the observation: nothing; encode_bipartitions() (stored encoding); "
+        "encode followed by 1-3 structural edits with the default update_bipartitions=False (prune_subtree, remove_child, new_child, add_child, "
+        "insert_child, edge collapse, prune/retain_taxa_with_labels, seed_node reassignment, reroot_at_node, reseed_at, resolve_polytomies, "
+        "suppress_unifurcations, ladderize) so that the stored encoding is stale, optionally update_bipartitions() and more edits; other caches "
+        "populated (calc_node_ages, calc_node_root_distances, phylogenetic_distance_matrix, node_distance_matrix, bipartition_edge_map); clone(1/2)/deepcopy; "
+        "the tree the traversal is judged on is re-read after the preparation by a from-scratch walk over _child_nodes, and the model gets that tree; "
+        "the evidence counts the classes: state_*, prep_*); thorough adds every shape "
         "<= 6 leaves x every start; non-trivial = start is not the seed, or a filter is given, or a falsy class is used, "
-        "or the kind is apply/in-order/age-order/ancestors; a third of the cases run one or two other traversals (drained or "
-        "abandoned part-way) on the same objects first")
+        "or the kind is apply/in-order/age-order/ancestors/a neighbour list/a search, or the case has a state; a third of the cases run one or two other traversals (drained or "
+        "abandoned part-way, each judged too) on the same objects first")
 MODELLED_NOT_VERIFIED = [
     "C15: the Lean machines are hand-written from Node.preorder_iter/postorder_iter/levelorder_iter/leaf_iter/inorder_iter/"
-    "ageorder_iter/ancestor_iter/apply and Tree.preorder_edge_iter/postorder_edge_iter and the wrappers; tied to the code "
-    "by the per-case comparison of visit sequences",
-    "C15: Node.apply and ancestor_iter climb parent pointers; the pointer-level loops over the parent array (applyPtrTrace, "
-    "ancPtrIter) are proved equal to the tree-level models on every protocol tree (apply_pointer_refinement, "
-    "ancestor_pointer_refinement); that the parent array is what the Python objects hold is the per-case comparison",
-    "C15: generator suspension: levelorder_iter is also modelled one next() at a time over a mutable heap (lvNext) with "
+    "ageorder_iter/ancestor_iter/apply/child_node_iter/child_edge_iter/incident_edges/adjacent_nodes/sibling_nodes and "
+    "Tree.preorder_edge_iter/postorder_edge_iter/find_node* and the wrappers; tied to the code by the per-case comparison of "
+    "visit sequences. Regenerated from the source on every run instead (Gen/C15Filters.lean, bridges internal_filter_bridge / "
+    "leaf_filter_bridge / len_bridge): the filter lambdas of the four internal-node/-edge wrappers, of leaf_iter and of "
+    "Node.leaf_nodes, the traversal each of them delegates to, and the counting loop of Tree.__len__",
+    "C15: Node.apply, ancestor_iter, adjacent_nodes and sibling_nodes read parent pointers; the pointer-level readings over the parent "
+    "array (applyPtrTrace, ancPtrIter, adjacentPtr, siblingPtr) are proved equal to the tree-level models on every protocol tree "
+    "(apply_pointer_refinement, ancestor_pointer_refinement, neighbour_pointer_refinement); that the parent array is what the "
+    "Python objects hold is the per-case comparison (the array is written from a walk over _child_nodes, and a preparation that "
+    "leaves parent pointers and child lists in disagreement is discarded, counted as prep_left_no_tree)",
+    "C15: state (stored bipartition encodings, age/distance caches, taxa, labels) has no counterpart in the model: the model "
+    "sees only the tree structure as re-read after the preparation, which IS the claim (no traversal, list form or len may depend "
+    "on anything but the child lists); the preparation steps themselves (encode_bipartitions, prune_*, reroot ...) are not judged "
+    "here, a refusal of one of them is counted (prep_refused) and the traversal is judged on the structure that is left",
+    "C15: generator suspension: levelorder_iter and preorder_iter are also modelled one next() at a time over a mutable heap (lvNext, pvNext) with "
     "frame/independence theorems; the other generators are modelled as complete runs only, their abandoned prefixes and "
     "interleavings are judged by the oracle on the Python side; a tree mutated by the CALLER during iteration is outside "
     "the statement; a filter is a set of "
     "accepted node ids - what the callable returns for them (bool or any truthy/falsy object) is varied on the Python side only",
     "C15: age order: the model sorts stably (as list.sort does); the statement asks only for monotone age, so model and "
     "implementation are compared up to the order inside groups of equal age",
+    "C15: find_node_with_taxon_label compares labels: the harness translates the label asked for into the set of taxon indices "
+    "carrying it (two taxa may share a label) before the model is asked; node identity (`nd is not self`, `node.taxon is taxon`) "
+    "is modelled by ids / taxon indices, pairwise distinct by construction (protocol_ids_distinct)",
 ]
-EXPLANATION = ("Last theorem round: apply_pointer_refinement(+_build) / apply_zipper_refinement (the literal loop of Node.apply over the "
+EXPLANATION = ("Round ext-3: (1) tie A - Gen/C15Filters.lean is regenerated from the source on every run (the truthiness-composed filter "
+               "lambdas of preorder/postorder_internal_node_iter, preorder/postorder_internal_edge_iter, leaf_iter, Node.leaf_nodes as Boolean "
+               "functions of excl/hasFilter/hasParent/hasKids/pass; the traversal each delegates to; Tree.__len__ as init + n*step over the leaf "
+               "iterator) and bridged to the model by internal_filter_bridge, leaf_filter_bridge, len_bridge (case analysis: a rewrite that keeps "
+               "the meaning passes, `x and ...`, `if filter_fn:`, a dropped froot, another delegate or a fast path in __len__ breaks generation or "
+               "the bridge, and then search() hunts for a failing input on the real code); (2) new model parts with theorems: child_iter_spec "
+               "(child_node_iter/child_edge_iter/incident_edges), find_node_spec (find_node = head of the filtered pre-order: passes, nothing "
+               "before it passes; None iff nothing passes), find_by_attribute_spec + first_where_first (label / taxon predicate: first hit in "
+               "pre-order; find_node_for_taxon: first hit in POST-order), neighbour_spec and neighbour_pointer_refinement(+_build) "
+               "(sibling_nodes / adjacent_nodes computed on the way down = what the code reads through _parent_node on the parent array, on "
+               "every protocol tree); (3) the check now observes every kind on trees carrying state (stored, possibly stale bipartition "
+               "encodings; taxon-less / duplicate-taxon tips; age and distance caches; reassigned seeds; clones). The gap recorded earlier "
+               "('reading the apply zipper off a parent array') was already closed by apply_pointer_refinement. "
+               "Last theorem round: apply_pointer_refinement(+_build) / apply_zipper_refinement (the literal loop of Node.apply over the "
                "parent array = zipper machine = closer-list machine = brackets, on every protocol tree; fuel adequacy of buildTree: "
                "protocol_faithful), generator_frame / generators_independent / levelorder_generator_spec / "
                "levelorder_generators_interleaved (levelorder_iter one next() at a time over a mutable heap: a step changes no child "
@@ -46,8 +81,8 @@ EXPLANATION = ("Last theorem round: apply_pointer_refinement(+_build) / apply_zi
                "for any parent array), internal_nodes_driver_spec / tree_internal_lists_driver_spec (no id hypothesis left), "
                "ancestor_pointer_refinement (ancIter = the pointer climb over the parent array, driver kind ancptr), "
                "levelorder_generations / levelorder_depth_monotone (explicit non-decreasing depths), apply_dyck (labelled Dyck word, "
-               "opens in pre-order, closes in post-order), apply_zipper_refinement_partial (zipper climb = closer lists; zipper "
-               "<-> parent array not proved). Theorems, all about the definitions the driver runs: each machine = its defining order for every tree, start "
+               "opens in pre-order, closes in post-order), apply_zipper_refinement_partial (zipper climb = closer lists; the zipper "
+               "<-> parent array step is apply_pointer_refinement; the name is kept for the lemma). Theorems, all about the definitions the driver runs: each machine = its defining order for every tree, start "
                "and filter (preorder_spec, postorder_spec, levelorder_spec, leaf_spec, inorder_spec, filtered_spec, "
                "edge_iter_spec + edge_order_spec, wrapped_edge_iter_spec for the level/leaf/in-order edge iterators, "
                "each_node_once, len_spec, apply_spec, tree_lists_spec, tree_internal_lists_spec); internal_nodes_spec: "
@@ -59,13 +94,17 @@ EXPLANATION = ("Last theorem round: apply_pointer_refinement(+_build) / apply_zi
 
 AGE = ["ageasc", "agedesc", "ageascint", "agedescint"]
 BOTH = ["pre", "post", "level", "leaf", "in", "preint", "postint", "apply"] + AGE          # Node and Tree entry points
+FIND = ["findnode", "findnodes", "findlabel", "findtaxlabel", "findtaxon"]     # Tree.find_node* (first hit of a traversal)
+NEIGHBOURS = ["children", "childedges", "adjacent", "incident", "siblings"]   # the one-step iterators / lists of Node
 TREE_ONLY = ["preedge", "postedge", "preintedge", "postintedge", "leveledge", "leafedge", "inedge", "len",
-             "nodes", "leafnodes", "internalnodes", "edges", "leafedges", "internaledges"]
-NODE_ONLY = ["anc", "levelsched", "gensched"]
+             "nodes", "leafnodes", "internalnodes", "edges", "leafedges", "internaledges"] + FIND
+NODE_ONLY = ["anc", "levelsched", "gensched"] + NEIGHBOURS
 KINDS = BOTH + TREE_ONLY + NODE_ONLY
 EDGE_KINDS = {"preedge", "postedge", "preintedge", "postintedge", "leveledge", "leafedge", "inedge",
-              "edges", "leafedges", "internaledges"}
-UNFILTERED = {"apply", "len", "leafnodes", "internalnodes", "leafedges", "internaledges", "levelsched", "gensched"}   # entry points without filter_fn
+              "edges", "leafedges", "internaledges", "childedges", "incident"}
+UNFILTERED = {"apply", "len", "leafnodes", "internalnodes", "leafedges", "internaledges", "levelsched", "gensched",
+              "adjacent", "incident", "siblings", "findlabel", "findtaxlabel", "findtaxon"}   # entry points without filter_fn
+NEEDS_STATE = {"findlabel", "findtaxlabel", "findtaxon"}    # need labels / taxa on the nodes
 USES_EXCL = {"preint", "postint", "preintedge", "postintedge", "internalnodes", "internaledges"}
 NODECLS = ["plain", "nobool", "nolen"]
 FSTYLES = ["bool", "mixed", "falsyfn"]
@@ -120,12 +159,20 @@ def node_class(dendropy, name):
 
 
 class World(object):
-    """the objects of one case: nodes numbered as in the protocol tokens, their edges, the tree"""
+    """the objects of one case: nodes numbered as in the protocol tokens, their edges, the tree.
 
-    def __init__(self, dendropy, toks, nodecls):
+    A plain case builds bare nodes from the parent array of c["tree"].  A *state* case (any of the fields tax / labs /
+    lens / prep given) additionally hangs taxa, labels and edge lengths on the nodes, runs the preparation steps of
+    c["prep"] on the tree (bipartition encoding, age / distance caches, structural edits WITHOUT update_bipartitions,
+    seed reassignment, cloning ...) and then renumbers: the nodes of the case are whatever a from-scratch walk over
+    `_child_nodes` from the tree's current seed finds, in pre-order; the protocol tokens the model receives are
+    written from that walk (never from the library's own bookkeeping)."""
+
+    def __init__(self, dendropy, toks, nodecls, c=None):
         n = int(toks[0])
         par = [int(x) for x in toks[1:1 + n]]
         cls = node_class(dendropy, nodecls)
+        self.cls = cls
         self.nodes = [cls() for _ in range(n)]
         root = None
         for i in range(n):
@@ -133,10 +180,159 @@ class World(object):
                 root = self.nodes[i]
             else:
                 self.nodes[par[i]].add_child(self.nodes[i])
-        self.tree = dendropy.Tree(seed_node=root)
+        c = c or {}
+        self.state = bool(c.get("tax") or c.get("labs") or c.get("lens") or c.get("prep"))
+        self.taxa = []
+        self.fresh_taxon = dendropy.Taxon(label="not-on-this-tree")   # what find_node_for_taxon is asked for when the case has no taxa
+        self.prep_log = []
+        self.consistent = True
+        if not self.state:
+            self.tree = dendropy.Tree(seed_node=root)
+            self.toks = list(toks)
+        else:
+            tns = dendropy.TaxonNamespace()
+            tax = c.get("tax") or [None] * n
+            ntax = 1 + max([t for t in tax if t is not None] or [-1])
+            tlabs = c.get("tlabs") or list(range(ntax))
+            for k in range(ntax):
+                tx = dendropy.Taxon(label="T%d" % tlabs[k % len(tlabs)])
+                tns.add_taxon(tx)
+                self.taxa.append(tx)
+            for i, nd in enumerate(self.nodes):
+                if i < len(tax) and tax[i] is not None:
+                    nd.taxon = self.taxa[tax[i]]
+                labs = c.get("labs")
+                if labs and i < len(labs) and labs[i] is not None:
+                    nd.label = "L%d" % labs[i]
+                lens = c.get("lens")
+                if lens and i < len(lens) and lens[i] is not None:
+                    nd.edge.length = float(Fraction(lens[i]))
+            self.tree = dendropy.Tree(seed_node=root, taxon_namespace=tns)
+            self.initial = list(self.nodes)
+            for step in c.get("prep") or []:
+                self.prep_log.append(self.prep_step(dendropy, step))
+            self.renumber()
         self.nmap = {id(nd): i for i, nd in enumerate(self.nodes)}
         self.emap = {id(nd.edge): i for i, nd in enumerate(self.nodes)}
-        self.n = n
+        self.n = len(self.nodes)
+
+    # ---- preparation steps (none of them is under test here: a refusal is logged and the structure that is left is
+    #      what the traversals are judged on, provided child lists and parent pointers still agree)
+    def alive(self):
+        return {id(x) for x in o_pre(self.tree.seed_node)} if self.tree.seed_node is not None else set()
+
+    def prep_step(self, dendropy, step):
+        import copy
+        import random as _random
+        import warnings
+        op, args = step[0], step[1:]
+        tree = self.tree
+        node = None
+        if op in ("prune_subtree", "remove_child", "new_child", "add_child", "insert_child", "reseed", "reroot",
+                  "reseed_at", "collapse_edge", "new_taxon_child"):
+            node = self.initial[args[0] % len(self.initial)]
+            if id(node) not in self.alive():
+                return op + ":skipped"
+            if op in ("prune_subtree", "remove_child", "collapse_edge") and node is tree.seed_node:
+                return op + ":skipped"
+        try:
+            with warnings.catch_warnings():
+                warnings.simplefilter("ignore")
+                if op == "encode":
+                    tree.encode_bipartitions(suppress_unifurcations=bool(args and args[0]))
+                elif op == "update":
+                    tree.update_bipartitions(suppress_unifurcations=bool(args and args[0]))
+                elif op == "ages":
+                    tree.calc_node_ages(ultrametricity_precision=False)
+                elif op == "rootdist":
+                    tree.calc_node_root_distances()
+                elif op == "pdm":
+                    tree.phylogenetic_distance_matrix()
+                elif op == "ndm":
+                    tree.node_distance_matrix()
+                elif op == "bipmap":
+                    tree.bipartition_edge_map
+                    tree.split_bitmask_edge_map
+                elif op == "clone":
+                    self.tree = tree.clone(args[0]) if args[0] in (1, 2) else copy.deepcopy(tree)
+                elif op == "prune_subtree":
+                    tree.prune_subtree(node, suppress_unifurcations=bool(args[1]))
+                elif op == "remove_child":
+                    listed = [x for x in o_pre(tree.seed_node) if any(ch is node for ch in x._child_nodes)]
+                    listed[0].remove_child(node, suppress_unifurcations=bool(args[1]))
+                elif op == "new_child":
+                    node.new_child()
+                elif op == "new_taxon_child":
+                    t = dendropy.Taxon(label="N%d" % len(self.taxa))
+                    tree.taxon_namespace.add_taxon(t)
+                    self.taxa.append(t)
+                    node.new_child(taxon=t, edge_length=1.0)
+                elif op == "add_child":
+                    node.add_child(self.cls())
+                elif op == "insert_child":
+                    node.insert_child(args[1] % (len(node._child_nodes) + 1), self.cls())
+                elif op == "collapse_edge":
+                    node.edge.collapse()
+                elif op == "reseed":
+                    tree.seed_node = node
+                elif op == "reroot":
+                    tree.reroot_at_node(node, suppress_unifurcations=bool(args[1]))
+                elif op == "reseed_at":
+                    tree.reseed_at(node, suppress_unifurcations=bool(args[1]))
+                elif op == "prune_labels":
+                    tree.prune_taxa_with_labels(["T%d" % k for k in args[0]], suppress_unifurcations=bool(args[1]))
+                elif op == "retain_labels":
+                    tree.retain_taxa_with_labels(["T%d" % k for k in args[0]], suppress_unifurcations=bool(args[1]))
+                elif op == "ladderize":
+                    tree.ladderize(ascending=bool(args[0]))
+                elif op == "suppress":
+                    tree.suppress_unifurcations()
+                elif op == "resolve":
+                    tree.resolve_polytomies(rng=_random.Random(args[0]))
+                elif op == "drain":   # another traversal consumed in full first (populates nothing, must change nothing)
+                    for _ in tree.postorder_node_iter():
+                        pass
+                else:
+                    raise ValueError("unknown preparation step %r" % (step,))
+        except Exception as e:
+            if not common.is_library_exception(e):
+                raise
+            return "%s:%s" % (op, type(e).__name__)
+        return op + ":ok"
+
+    def renumber(self):
+        seed = self.tree.seed_node
+        order, seen, ok = [], set(), seed is not None and seed._parent_node is None
+        stack = [seed] if seed is not None else []
+        while stack and len(order) < 100000:
+            nd = stack.pop()
+            if id(nd) in seen:
+                ok = False
+                continue
+            seen.add(id(nd))
+            order.append(nd)
+            for ch in nd._child_nodes:
+                if ch._parent_node is not nd:
+                    ok = False
+            stack.extend(reversed(nd._child_nodes))
+        self.consistent = ok and len(order) > 0
+        self.nodes = order
+        idx = {id(nd): i for i, nd in enumerate(order)}
+        par = ["-1"] * len(order)
+        for nd in order:
+            for ch in nd._child_nodes:
+                if id(ch) in idx:
+                    par[idx[id(ch)]] = str(idx[id(nd)])
+        tmap = {id(t): k for k, t in enumerate(self.taxa)}
+        tax, labs = [], []
+        for nd in order:
+            t = getattr(nd, "taxon", None)
+            if t is not None and id(t) not in tmap:      # a taxon object made by the library (clone): same label, own index
+                tmap[id(t)] = len(self.taxa)
+                self.taxa.append(t)
+            tax.append("-" if t is None else str(tmap[id(t)]))
+            labs.append(common.hex6(nd.label) if isinstance(nd.label, str) or nd.label is None else "-")
+        self.toks = [str(len(order))] + par + tax + ["N"] * len(order) + labs
 
     def nid(self, x):
         return self.nmap.get(id(x), "?")
@@ -166,7 +362,9 @@ def make_filter(acc, fstyle, salt, key):
         def f(x):
             i = key(x)
             table = TRUTHY if i in acc else FALSY
-            return table[(i + salt) % len(table)]
+            # an object the case does not know (the code handed the filter something else than a node / an edge of
+            # this tree) is answered with a falsy value - the oracle then sees what was yielded; never a harness crash
+            return table[((i if isinstance(i, int) else 0) + salt) % len(table)]
         return f
     g = lambda x: key(x) in acc
     return FalsyFn(g) if fstyle == "falsyfn" else g
@@ -280,6 +478,29 @@ def oracle(c, w, seed):
         path = o_path(w.tree.seed_node, seed)
         up = list(reversed(path[:-1]))
         return I(([seed] if (c["incl"] and keep(seed)) else []) + [x for x in up if keep(x)])
+    if kind in ("children", "childedges"):
+        return I(x for x in seed._child_nodes if keep(x))
+    if kind == "incident":      # the edges of the children, then the node's own edge
+        return I(list(seed._child_nodes) + [seed])
+    if kind in ("adjacent", "siblings"):
+        path = o_path(w.tree.seed_node, seed)   # the parent, found from the top through the child lists
+        parent = path[-2] if path is not None and len(path) >= 2 else None
+        if kind == "adjacent":
+            return I(list(seed._child_nodes) + ([parent] if parent is not None else []))
+        return I(x for x in (parent._child_nodes if parent is not None else []) if x is not seed)
+    if kind == "findnodes":
+        return I(x for x in o_pre(seed) if keep(x))
+    if kind in FIND:
+        if kind == "findnode":
+            hits = [x for x in o_pre(seed) if keep(x)]
+        elif kind == "findlabel":
+            hits = [x for x in o_pre(seed) if x.label == "L%d" % c["q"]]
+        elif kind == "findtaxlabel":
+            hits = [x for x in o_pre(seed) if x.taxon is not None and x.taxon.label == "T%d" % c["q"]]
+        else:   # find_node_for_taxon: documented as 'first node'; it walks in post-order
+            tx = w.taxa[c["q"] % len(w.taxa)] if w.taxa else w.fresh_taxon
+            hits = [x for x in o_post(seed) if x.taxon is tx]
+        return I(hits[:1]) if hits else ["-"]
     if kind in AGE:
         return I(x for x in o_pre(seed) if (not kind.endswith("int") or not is_leaf(x)) and keep(x))
     raise ValueError(kind)
@@ -379,12 +600,13 @@ def impl(c, w, seed, obj, cap=None):
         return E(t.internal_edges(excl))
     if kind == "apply":
         ev = []
-        (t if t is not None else seed).apply(before_fn=lambda x: ev.append("b%s" % w.nid(x)),
-                                             after_fn=lambda x: ev.append("a%s" % w.nid(x)),
-                                             leaf_fn=lambda x: ev.append("l%s" % w.nid(x)))
+        wrap = FalsyFn if c["fstyle"] == "falsyfn" else (lambda f: f)   # a callback that is a falsy callable is still a callback
+        (t if t is not None else seed).apply(before_fn=wrap(lambda x: ev.append("b%s" % w.nid(x))),
+                                             after_fn=wrap(lambda x: ev.append("a%s" % w.nid(x))),
+                                             leaf_fn=wrap(lambda x: ev.append("l%s" % w.nid(x))))
         return ev
     if kind == "len":
-        return [len(t)]
+        return [t.__len__()] if c["alt"] else [len(t)]
     if kind in ("levelsched", "gensched"):
         gk = c["gk"] if kind == "gensched" else "ll"
         mk = {"p": lambda nd: nd.preorder_iter(), "l": lambda nd: nd.levelorder_iter()}
@@ -398,6 +620,32 @@ def impl(c, w, seed, obj, cap=None):
         return out
     if kind == "anc":
         return N(seed.ancestor_iter(nf, c["incl"]) if not c["alt"] else seed.ancestor_iter(filter_fn=nf, inclusive=c["incl"]))
+    if kind == "children":
+        if c["alt"] and acc is None:
+            return N(seed.child_nodes())
+        return N(seed.child_node_iter(nf))
+    if kind == "childedges":
+        if c["alt"] and acc is None:
+            return E(seed.child_edges())
+        return E(seed.child_edge_iter(ef))
+    if kind == "incident":
+        return E(seed.get_incident_edges() if c["alt"] else seed.incident_edges())
+    if kind == "adjacent":
+        return N(seed.get_adjacent_nodes() if c["alt"] else seed.adjacent_nodes())
+    if kind == "siblings":
+        return N(seed.sister_nodes() if c["alt"] else seed.sibling_nodes())
+    if kind == "findnodes":
+        return N(t.find_nodes(nf))
+    if kind in FIND:
+        if kind == "findnode":
+            r = t.find_node(nf)
+        elif kind == "findlabel":
+            r = t.find_node_with_label("L%d" % c["q"])
+        elif kind == "findtaxlabel":
+            r = t.find_node_with_taxon_label("T%d" % c["q"])
+        else:
+            r = t.find_node_for_taxon(w.taxa[c["q"] % len(w.taxa)] if w.taxa else w.fresh_taxon)
+        return ["-"] if r is None else [w.nid(r)]
     if kind in AGE:
         ages = [Fraction(a) for a in c["ages"]]
         for i, nd in enumerate(w.nodes):
@@ -450,7 +698,7 @@ def judge_prior(ctx, c, w, pk, take, want_p, got_p, exc, where):
         return
     exp = want_p[:take + 1] if partial else want_p
     if fmt(got_p) != fmt(exp):
-        ctx.fail("order", "%s: earlier traversal %s%s visited [%s], defining order%s is [%s]" % (
+        ctx.fail(classify(dict(c, kind=pk, acc=None), got_p, want_p, "order"), "%s: earlier traversal %s%s visited [%s], defining order%s is [%s]" % (
             where, pk, " (abandoned)" if partial else "", fmt(got_p), " (prefix)" if partial else "", fmt(exp)), c)
 
 
@@ -472,13 +720,33 @@ def normalise(c):
     c.setdefault("start2", 0)
     c.setdefault("sched", "")
     c.setdefault("gk", "ll")
+    for k in ("tax", "tlabs", "labs", "lens"):
+        c.setdefault(k, None)
+    c.setdefault("prep", [])
+    c.setdefault("q", 0)
     return c
 
 
 def one_case(ctx, dendropy, c, pending):
     c = normalise(c)
     kind, start, via = c["kind"], c["start"], c["via"]
-    w = World(dendropy, c["tree"], c["nodecls"])
+    w = World(dendropy, c["tree"], c["nodecls"], c)
+    if w.state:
+        for entry in w.prep_log:
+            ctx.count("prep_" + entry.split(":")[0])
+            if not entry.endswith((":ok", ":skipped")):
+                ctx.count("prep_refused")
+        if not w.consistent:
+            # the preparation left child lists and parent pointers in disagreement (or no seed): not a tree shape, and
+            # not this property's business
+            ctx.count("prep_left_no_tree")
+            return
+        # indices of a state case refer to the numbering AFTER the preparation; fold them into range (idempotent)
+        c["start"] = start = (0 if via == "tree" else start % w.n)
+        c["start2"] = c["start2"] % w.n
+        c["ages"] = [c["ages"][i % len(c["ages"])] for i in range(w.n)]
+        if c["acc"] is not None:
+            c["acc"] = sorted(i for i in c["acc"] if i < w.n)
     seed = w.nodes[start]
     obj = None
     if via == "tree":
@@ -518,9 +786,13 @@ def one_case(ctx, dendropy, c, pending):
         refused = type(e).__name__
         refusal_ok = deliberate(e)
     filtered = c["acc"] is not None and kind not in UNFILTERED
-    nontrivial = (start != 0 or filtered or c["nodecls"] != "plain" or kind in ("apply", "in", "inedge", "anc", "levelsched", "gensched") or kind in AGE)
+    nontrivial = (start != 0 or filtered or c["nodecls"] != "plain" or kind in ("apply", "in", "inedge", "anc", "levelsched", "gensched")
+                  or kind in AGE or kind in FIND or kind in NEIGHBOURS or bool(c["prep"]) or bool(c["tax"]))
     ctx.case([c["tree"], kind, start, via, c["excl"], c["incl"], c["acc"], c["fstyle"], c["nodecls"], c["alt"], c["prior"],
-              [c["start2"], c["sched"], c["gk"]] if kind in ("levelsched", "gensched") else None, c["ages"] if kind in AGE else None], nontrivial, sample=c, kind=kind)
+              [c["start2"], c["sched"], c["gk"]] if kind in ("levelsched", "gensched") else None, c["ages"] if kind in AGE else None,
+              [c["tax"], c["tlabs"], c["labs"], c["lens"], c["prep"], c["q"]] if w.state else None], nontrivial, sample=c, kind=kind)
+    if w.state:
+        count_state(ctx, c, w)
     if c["prior"]:
         ctx.count("after_earlier_traversals")
     if c["nodecls"] != "plain":
@@ -562,8 +834,10 @@ def one_case(ctx, dendropy, c, pending):
         kind, start, 1 if (via == "subtree" and start != 0) else 0, 1 if c["excl"] else 0, 1 if c["incl"] else 0, filt,
         ",".join(tu.frac(a) for a in ages) if kind in AGE else (
             "%d:%s" % (c["start2"], c["sched"] or "0") if kind == "levelsched" else (
-                "%s:%d:%s" % (c["gk"], c["start2"], c["sched"] or "0") if kind == "gensched" else "-")), " ".join(c["tree"]))
+                "%s:%d:%s" % (c["gk"], c["start2"], c["sched"] or "0") if kind == "gensched" else find_field(c, w))), " ".join(w.toks))
     pending.append((line, c, canon))
+    if kind in ("adjacent", "siblings"):   # the pointer-level reading (…_pointer_refinement) must say the same
+        pending.append((line.replace("iter %s " % kind, "iter %sptr " % kind, 1), c, canon))
     if kind == "apply":   # the pointer-level loop over the parent array (apply_pointer_refinement) must say the same
         pending.append((line.replace("iter apply ", "iter applyptr ", 1), c, canon))
     if kind == "level" and not filtered and isinstance(got, list):
@@ -577,6 +851,49 @@ def one_case(ctx, dendropy, c, pending):
         pending.append((line.replace("iter anc ", "iter ancptr ", 1), c, canon))
 
 
+def find_field(c, w):
+    """the query of the find_node_with_* kinds in protocol form: a label as hex, the indices of the taxa whose label is
+    asked for (or `-`), the index of the taxon object asked for"""
+    kind = c["kind"]
+    if kind == "findlabel":
+        return common.hex6("L%d" % c["q"])
+    if kind == "findtaxlabel":
+        hit = [str(k) for k, t in enumerate(w.taxa) if t.label == "T%d" % c["q"]]
+        return ",".join(hit) if hit else "-"
+    if kind == "findtaxon":
+        return str(c["q"] % len(w.taxa)) if w.taxa else "-"
+    return "-"
+
+
+def count_state(ctx, c, w):
+    """distribution of the state classes into the evidence"""
+    ops = [st[0] for st in c["prep"]]
+    edits = {"prune_subtree", "remove_child", "new_child", "new_taxon_child", "add_child", "insert_child", "collapse_edge",
+             "prune_labels", "retain_labels", "reseed", "reroot", "reseed_at", "resolve", "suppress"}
+    ctx.count("state_cases")
+    if not ops:
+        ctx.count("state_fresh_with_taxa")
+    if "encode" in ops or "update" in ops:
+        last_enc = max(i for i, o in enumerate(ops) if o in ("encode", "update"))
+        stale = any(o in edits for o in ops[last_enc + 1:])
+        ctx.count("state_encoded_then_edited_without_update" if stale else "state_encoded_current")
+    if any(o in ("ages", "rootdist", "pdm", "ndm", "bipmap") for o in ops):
+        ctx.count("state_other_caches_populated")
+    if any(o in ("reseed", "reroot", "reseed_at") for o in ops):
+        ctx.count("state_seed_reassigned")
+    if "clone" in ops:
+        ctx.count("state_cloned")
+    leaves = [x for x in w.nodes if not x._child_nodes]
+    lt = [x.taxon for x in leaves]
+    if any(t is None for t in lt):
+        ctx.count("state_taxonless_tips")
+    if len({id(t) for t in lt if t is not None}) < len([t for t in lt if t is not None]):
+        ctx.count("state_duplicate_taxon_tips")
+    enc = getattr(w.tree, "bipartition_encoding", None)
+    if enc:
+        ctx.count("state_stored_encoding_present")
+
+
 def classify(c, got, unfiltered, default):
     """give the two documented truthiness defects their own failure kinds (exactly those, nothing else on the same input):
     falsy-node-dropped: no filter given, node class falsy, and the answer is the defining order minus every falsy node/edge
@@ -584,6 +901,12 @@ def classify(c, got, unfiltered, default):
     falsy-filter-ignored: the filter object is falsy and the answer is exactly the unfiltered defining order"""
     kind = c["kind"]
     filtered = c["acc"] is not None and kind not in UNFILTERED
+    if kind == "apply" and c["fstyle"] == "falsyfn" and isinstance(unfiltered, list) and got == [e for e in unfiltered if not e.startswith("l")]:
+        return "falsy-callback-ignored"     # `if leaf_fn:` - a callback that is a falsy callable is never called
+    if kind in ("adjacent", "siblings") and c["nodecls"] != "plain" and isinstance(unfiltered, list):
+        # `if self._parent_node:` / `if not p:` - a falsy parent is taken for 'no parent'
+        if (kind == "siblings" and got == []) or (kind == "adjacent" and got == unfiltered[:-1]):
+            return "falsy-parent-ignored"
     if c["nodecls"] != "plain" and not filtered and kind in (
             "preint", "postint", "leaf", "len", "leafnodes", "internalnodes", "leafedges", "internaledges", "leafedge",
             "preintedge", "postintedge"):
@@ -661,6 +984,96 @@ def make_case(rng, toks, n, kind, start=None, via=None, max_age=6):
             "ages": [str(Fraction(rng.randint(0, max_age), 2)) for _ in range(n)]})
 
 
+CACHES = ["ages", "rootdist", "pdm", "ndm", "bipmap", "drain"]
+EDITS = ["prune_subtree", "remove_child", "new_child", "new_taxon_child", "add_child", "insert_child", "collapse_edge",
+         "prune_labels", "retain_labels", "reseed", "reroot", "reseed_at", "resolve", "suppress", "ladderize"]
+
+
+def make_step(rng, op, n, ntax):
+    if op in ("encode", "update"):
+        return [op, int(rng.random() < 0.3)]
+    if op in ("prune_subtree", "remove_child", "reroot", "reseed_at"):
+        return [op, rng.randrange(n), int(rng.random() < 0.5)]
+    if op in ("new_child", "new_taxon_child", "add_child", "collapse_edge", "reseed"):
+        return [op, rng.randrange(n)]
+    if op == "insert_child":
+        return [op, rng.randrange(n), rng.randrange(4)]
+    if op in ("prune_labels", "retain_labels"):
+        return [op, sorted(rng.sample(range(max(ntax, 1)), rng.randint(1, max(1, min(3, ntax))))), int(rng.random() < 0.5)]
+    if op == "ladderize":
+        return [op, int(rng.random() < 0.5)]
+    if op == "resolve":
+        return [op, rng.randrange(1000)]
+    if op == "clone":
+        return [op, rng.choice([1, 2, 3])]
+    return [op]
+
+
+def make_state(rng, toks, n):
+    """the state fields of a case: taxa on the tips (all distinct / some tips without / two tips sharing one / also on
+    inner nodes / none), labels, edge lengths, and a preparation: nothing, a stored bipartition encoding, an encoding
+    followed by structural edits that leave it stale (update_bipartitions is False by default everywhere), other
+    caches (ages, root distances, distance matrices, bipartition maps), seed reassignment, cloning"""
+    par = [int(x) for x in toks[1:1 + n]]
+    leaf = [i for i in range(n) if i not in par]
+    mode = rng.choice(["all", "all", "some", "some", "dup", "dup", "inner", "none"])
+    tax = [None] * n
+    k = 0
+    for i in leaf:
+        if mode == "none" or (mode == "some" and rng.random() < 0.4):
+            continue
+        if mode == "dup" and k > 0 and rng.random() < 0.4:
+            tax[i] = rng.randrange(k)
+            continue
+        tax[i] = k
+        k += 1
+    if mode == "inner":
+        for i in range(n):
+            if i not in leaf and rng.random() < 0.4:
+                tax[i] = k if rng.random() < 0.7 or k == 0 else rng.randrange(k)
+                k = max(k, tax[i] + 1)
+    tlabs = list(range(k))
+    if k > 1 and rng.random() < 0.2:      # two taxa carrying the same label
+        tlabs[rng.randrange(1, k)] = tlabs[0]
+    labs = [None if rng.random() < 0.4 else rng.randrange(4) for _ in range(n)]
+    r = rng.random()
+    lens = [None if (r < 0.2 and rng.random() < 0.3) else tu.frac(tu.dyadic(rng)) for _ in range(n)]
+    cls = rng.random()
+    prep = []
+    if cls < 0.15:
+        pass                                                                # (a) fresh, (d) odd taxa only
+    elif cls < 0.30:
+        prep = [make_step(rng, "encode", n, k)]                             # (b) stored encoding, current
+    elif cls < 0.65:                                                        # (c) stored encoding gone stale
+        prep = [make_step(rng, "encode", n, k)]
+        for _ in range(rng.randint(1, 3)):
+            prep.append(make_step(rng, rng.choice(EDITS), n, k))
+        if rng.random() < 0.2:
+            prep.append(make_step(rng, "update", n, k))
+            if rng.random() < 0.5:
+                prep.append(make_step(rng, rng.choice(EDITS), n, k))
+    elif cls < 0.85:                                                        # (e) other caches, seed reassignment, clones
+        for _ in range(rng.randint(1, 3)):
+            prep.append(make_step(rng, rng.choice(CACHES + CACHES + ["reseed", "reroot", "reseed_at", "clone", "encode"]), n, k))
+        if rng.random() < 0.5:
+            prep.append(make_step(rng, rng.choice(EDITS), n, k))
+    else:                                                                   # anything
+        for _ in range(rng.randint(1, 5)):
+            prep.append(make_step(rng, rng.choice(CACHES + EDITS + ["encode", "encode", "update", "clone"]), n, k))
+    return {"tax": tax, "tlabs": tlabs, "labs": labs, "lens": lens, "prep": prep, "q": rng.randrange(max(k, 4))}
+
+
+def make_state_case(dendropy, rng, toks, n, kind):
+    """a state case: the indices (start, filter, ages) are drawn for the tree as it is AFTER the preparation"""
+    st = make_state(rng, toks, n)
+    nodecls = "plain" if rng.random() < 0.8 else rng.choice(["nobool", "nolen"])
+    w = World(dendropy, toks, nodecls, st)
+    c = make_case(rng, toks, max(w.n, 1), kind)
+    c.update(st)
+    c["nodecls"] = nodecls
+    return c
+
+
 def run(ctx):
     dendropy = __import__("dendropy")
     rng = ctx.rng
@@ -672,7 +1085,13 @@ def run(ctx):
         if ctx.out_of_time():
             break
         toks, n = gen_toks(dendropy, rng, max_leaves if rng.random() < 0.9 else 3)
-        one_case(ctx, dendropy, make_case(rng, toks, n, rng.choice(KINDS)), pending)
+        kind = rng.choice(KINDS)
+        if kind in NEEDS_STATE or rng.random() < 0.35:
+            if kind not in NEEDS_STATE and rng.random() < 0.25:
+                kind = rng.choice(["len", "len", "leafnodes", "nodes", "leaf", "leafedges", "internalnodes", "edges"])
+            one_case(ctx, dendropy, make_state_case(dendropy, rng, toks, n, kind), pending)
+        else:
+            one_case(ctx, dendropy, make_case(rng, toks, n, kind), pending)
         if len(pending) >= 500:
             flush(ctx, pending)
     flush(ctx, pending)
@@ -691,6 +1110,8 @@ def run(ctx):
                             via = ("tree" if start == 0 else "subtree") if kind in TREE_ONLY else (
                                 "node" if (kind in NODE_ONLY or start != 0 or rng.random() < 0.5) else "tree")
                             c = make_case(rng, toks, nn, kind, start=start, via=via, max_age=3)
+                            if kind in NEEDS_STATE:
+                                c.update(make_state(rng, toks, nn), prep=[])
                             if not with_filter:
                                 c["acc"] = None
                             elif c["acc"] is None:
@@ -702,6 +1123,37 @@ def run(ctx):
         flush(ctx, pending)
         ctx.extra["exhaustive_small_scope"] = ("%d (shape<=6 leaves, kind, start) combinations, each without and with one "
                                                "random filter" % count)
+
+
+def search(ctx, broken):
+    """obligations broke (Gen/C15Filters no longer regenerates, or a bridge / theorem no longer builds) or model and code
+    disagreed: hunt for a concrete input on which the real code contradicts the statement, aimed at what the bridges
+    cover - the filter lambdas of the internal / leaf wrappers (falsy node and edge classes, falsy filter objects,
+    excluded seeds on spliced subtrees, every filter answer style) and `len` (stored encodings gone stale, odd taxa,
+    other caches)"""
+    dendropy = __import__("dendropy")
+    rng = ctx.rng
+    t_end = __import__("time").time() + ctx.pick(25, 120)
+    pending = []
+    lam_kinds = ["preint", "postint", "preintedge", "postintedge", "leaf", "leafedge", "leafnodes", "leafedges",
+                 "internalnodes", "internaledges", "len"]
+    n_cases = 0
+    while __import__("time").time() < t_end and n_cases < ctx.pick(6000, 40000) and len(ctx.failures) < 50:
+        toks, n = gen_toks(dendropy, rng, 8)
+        r = rng.random()
+        if r < 0.5:
+            c = make_case(rng, toks, n, rng.choice(lam_kinds))
+            c["nodecls"] = rng.choice(NODECLS)
+            c["fstyle"] = rng.choice(FSTYLES)
+            c["excl"] = rng.random() < 0.7
+        else:
+            c = make_state_case(dendropy, rng, toks, n, rng.choice(["len", "len", "leaf", "leafnodes", "internalnodes", "preint"]))
+        one_case(ctx, dendropy, c, pending)
+        n_cases += 1
+        if len(pending) >= 500:
+            flush(ctx, pending)
+    flush(ctx, pending)
+    ctx.count("targeted_search_cases", n_cases)
 
 
 def replay(ctx, rec):
